@@ -19,7 +19,8 @@ def stats_oracle(vals, nscale, nmerge):
         if fld["sum"] == "xnan": return "sum is NaN"
         true = sum(Fraction(v) * w for v, w in vals); mag = sum(abs(Fraction(v)) * w for v, w in vals)
         got = Fraction(h2f(fld["sum"][1:]))
-        bound = Fraction(5 + 2 * nscale + 2 * nmerge, 2 ** 53) * mag + Fraction(4 * len(vals) + 4, 2 ** 1074)
+        # constants of the proved bounds (Props/Kahan.v K_add_list_new: 8u; Props/Kahan2.v: +1u per scaling, ~6u per merge), second-order terms absorbed by +1
+        bound = Fraction(9 + 2 * nscale + 6 * nmerge, 2 ** 53) * mag + Fraction(4 * len(vals) + 4, 2 ** 1074)
         if abs(got - true) > bound: return "exact sum %s is off the true sum %s by more than a few ulps of sum|v*w| (%s)" % (float(got), float(true), float(abs(got - true) / (mag or 1)))
         return None
     return f
@@ -127,7 +128,7 @@ def build_direct(rng, name):
                 if (fld["min"], fld["max"]) != ("+inf", "-inf"): return "empty statistics report min/max %s/%s" % (fld["min"], fld["max"])
             elif parse_F(fld["min"]) != min(ext) or parse_F(fld["max"]) != max(ext): return "min/max %s/%s differ from the true extremes %s/%s" % (fld["min"], fld["max"], float(min(ext)), float(max(ext)))
             true = sum(v * w for v, w in vals); mag = sum(abs(v) * w for v, w in vals); got = Fraction(h2f(fld["sum"][1:]))
-            if abs(got - true) > Fraction(5 + 3 * ns, 2 ** 53) * mag + Fraction(4 * len(vals) + 4, 2 ** 1074): return "sum %s is off the true sum %s by more than a few ulps of sum|v*w|" % (float(got), float(true))
+            if abs(got - true) > Fraction(9 + 6 * ns, 2 ** 53) * mag + Fraction(4 * len(vals) + 4, 2 ** 1074): return "sum %s is off the true sum %s by more than a few ulps of sum|v*w|" % (float(got), float(true))
             return None
         b.emit("tobs " + r, f)
     for _ in range(rng.randint(5, 40)):
@@ -184,7 +185,7 @@ def run(tier, seed):
         "C10", tier, seed, builders,
         "histories over three exact-summary sketches (random store kinds) and a plain twin: unit and dyadic-weight adds of arbitrary trackable values, weight-0 adds, rejected values (NaN, +-Inf, "
         "beyond the range, negative weight), merges, copies, clears, reweights, encode->decode round trips into other store kinds, decode into a non-empty sketch; checks: exact count = absorbed "
-        "weight, min/max = true extremes of what was absorbed with positive weight, emptiness, sum within (5+2#scale+2#merge) 2^-53 sum|vw| (+ subnormal floor) in exact rationals, statistics "
+        "weight, min/max = true extremes of what was absorbed with positive weight, emptiness, sum within (9+2#scale+6#merge) 2^-53 sum|vw| (+ subnormal floor; the constants of the proved bounds Props/Kahan.v, Kahan2.v) in exact rationals, statistics "
         "identical after a codec round trip, quantiles inside [min,max] and equal to the clamped plain answer; the model side replays the Flocq binary64 transcription of the compensated summation "
         "and must match GetSum bit for bit. Second stream: stat.SummaryStatistics used directly (Add, AddToCount, AddToSum, MergeWith, Reweight incl. 0, Rescale incl. negative and zero factors, "
         "Clear, Copy, NewSummaryStatisticsFromData accept/refuse), 60% tame programs with an exact shadow (count, extremes, sum bound), 40% with infinities, NaN, -0, negative and huge counts, "
